@@ -5,7 +5,7 @@ visible exactly when BOTH directions honour the configuration.
 
     'default'   - the library's own
     'classes'   - json_encoder / json_decoder classes
-    'functions' - json_loader / json_dumper functions (the dumper also sorts keys and uses compact separators)
+    'functions' - json_loader / json_dumper functions accepting exactly (value, cls=...) (the dumper uses compact separators)
 """
 
 import decimal
@@ -43,9 +43,10 @@ def kwargs_for(codec: str, side: str) -> Dict[str, Any]:
     if codec == 'classes':
         return {'json_encoder': enc, 'json_decoder': dec}
 
-    def loader(text: Any, cls: Any = None, **kwargs: Any) -> Any:
+    # the documented calling convention is loader(text, cls=decoder) / dumper(obj, cls=encoder): nothing else is accepted
+    def loader(text: Any, cls: Any = None) -> Any:
         return json.loads(text, cls=dec)
 
-    def dumper(obj: Any, cls: Any = None, **kwargs: Any) -> str:
-        return json.dumps(obj, cls=enc, sort_keys=True, separators=(',', ':'))
+    def dumper(obj: Any, cls: Any = None) -> str:
+        return json.dumps(obj, cls=enc, separators=(',', ':'))
     return {'json_loader': loader, 'json_dumper': dumper}
